@@ -231,6 +231,12 @@ static void xmi2mid_seeksrc(struct xmi2mid_xmi_ctx *ctx, uint32_t pos) {
     ctx->src_ptr = ctx->src + pos;
 }
 
+/* Seeks behind a chunk of len bytes (padded to even) that began at begin: the sum can need more than 32 bits */
+static void xmi2mid_seekchunkend(struct xmi2mid_xmi_ctx *ctx, uint32_t begin, uint32_t len) {
+    uint64_t pos = (uint64_t)begin + (((uint64_t)len + 1) & ~(uint64_t)1);
+    xmi2mid_seeksrc(ctx, (pos > ctx->srcsize) ? ctx->srcsize : (uint32_t)pos);
+}
+
 static void xmi2mid_seekdst(struct xmi2mid_xmi_ctx *ctx, uint32_t pos) {
     ctx->dst_ptr = ctx->dst + pos;
     while (ctx->dstsize < pos)
@@ -1173,7 +1179,7 @@ static uint32_t xmi2mid_ExtractTracksFromXmi(struct xmi2mid_xmi_ctx *ctx) {
             }
 
         rbrn_nodata:
-            xmi2mid_seeksrc(ctx, begin + ((len + 1) & ~1));
+            xmi2mid_seekchunkend(ctx, (uint32_t)begin, len);
             continue;
         }
 
@@ -1209,7 +1215,7 @@ static uint32_t xmi2mid_ExtractTracksFromXmi(struct xmi2mid_xmi_ctx *ctx) {
         num++;
 
         /* go to start of next track */
-        xmi2mid_seeksrc(ctx, begin + ((len + 1) & ~1));
+        xmi2mid_seekchunkend(ctx, (uint32_t)begin, len);
 
         /* clear branch points */
         for (unsigned i = 0; i < 128; ++i)
@@ -1297,7 +1303,7 @@ badfile:    /*_WM_GLOBAL_ERROR(__FUNCTION__, __LINE__, WM_ERR_CORUPT, "(too shor
 
             /* Ok now to start part 2
              * Goto the right place */
-            xmi2mid_seeksrc(ctx, start + ((len + 1) & ~1));
+            xmi2mid_seekchunkend(ctx, (uint32_t)start, len);
             if (xmi2mid_getsrcpos(ctx) + 12 > file_size)
                 goto badfile;
 
